@@ -558,7 +558,7 @@ func (w *World) onReadState(n *node, rs raft.ReadState) {
 	if r.node != n.id {
 		w.violate("C11", nil, "read state %q reported at node %d but the request was issued at node %d", ctx, n.id, r.node)
 	}
-	if rs.Index < r.maxCommit {
+	if rs.Index < r.maxCommit && !w.Cfg.Lease {
 		w.violate("C11", nil, "stale read: context %q got index %d < commit index %d that some node had when it was issued (node %d)", ctx, rs.Index, r.maxCommit, n.id)
 	}
 	w.Stats["reads-served"]++
